@@ -232,6 +232,76 @@ func (C18) Execute(sc *core.Scenario, keepLog bool) *core.Result {
 				// (a held attempt with a wrong password is followed at once by a second round in
 				// half of the cases: the count of failures must have started again, so two more
 				// failures arm the jail again)
+				if abs(a.Arg(2))%3 == 1 && failures <= 2 {
+					// two failures, then TWO attempts at the same moment (this session and a new
+					// one): in whatever order the server takes them, one is the third failure
+					// and the other comes after three consecutive failures - it waits
+					for failures < 2 {
+						if r := s.Cmd("LOGIN alice wrong%d", failures); r.OK() {
+							e.Fail("credentials", "LOGIN with a wrong password answered OK")
+							return
+						}
+						failures++
+					}
+					s2, err := e.W.Connect()
+					if err != nil {
+						e.Infra = err
+						return
+					}
+					pair := []*world.Sess{s, s2}
+					tags := []string{s.C.NextTag(), s2.C.NextTag()}
+					done := []string{"", ""}
+					start := time.Now()
+					for j, ps := range pair {
+						ps.W.Sim.SetLabel(ps.Label)
+						ps.C.Conn.ClientSend([]byte(fmt.Sprintf("%s LOGIN alice both-wrong%d\r\n", tags[j], j)))
+					}
+					e.W.Quiesce()
+					answeredN := func() int {
+						n := 0
+						for j, ps := range pair {
+							lines, _ := ps.Poll()
+							for _, l := range lines {
+								if l.Tag == tags[j] {
+									done[j] = l.Status
+								}
+							}
+							if done[j] != "" {
+								n++
+							}
+						}
+						return n
+					}
+					if answeredN() == 2 {
+						e.FailSig("jail", "simultaneous logins both answered at once", "after two consecutive failed logins two more LOGINs with wrong passwords, sent at the same moment on two connections, were both answered at once (%s, %s): one of them came after three consecutive failures and had to wait out the jail time %v", done[0], done[1], jail)
+						return
+					}
+					e.W.Advance(jail - 10*time.Millisecond)
+					if answeredN() == 2 {
+						e.Fail("jail", "of two simultaneous LOGINs after two failures both were answered %v after they were sent, before the jail time %v had passed", time.Since(start), jail)
+						return
+					}
+					e.W.Advance(time.Second + 20*time.Millisecond)
+					if answeredN() != 2 {
+						e.W.Advance(jail + time.Second)
+					}
+					if answeredN() != 2 {
+						e.Fail("jail", "of two simultaneous LOGINs after two failures only %d were answered after the jail time %v had passed", answeredN(), jail)
+						return
+					}
+					if done[0] == "OK" || done[1] == "OK" {
+						e.Fail("credentials", "LOGIN with a wrong password answered OK")
+						return
+					}
+					jailed++
+					e.St.Probes["jail_entered_by_simultaneous_logins"]++
+					e.St.Faults["clock_advance"] += 2
+					failures = 1
+					s2.Cmd("LOGOUT")
+					s2.C.Dead = true
+					e.Tr.Event("jail-pair", done[0], done[1])
+					continue
+				}
 				rounds := 1
 				if abs(a.Arg(3))%2 == 1 && abs(a.Arg(4))%2 == 1 {
 					rounds = 2
